@@ -1192,6 +1192,9 @@ def _mentions(s):
         return set(s[2])
     if k == "ret":
         return E(s[3])
+    if k == "try":
+        # the `except T as e` clause headers belong to the statement that is being entered
+        return set().union(*[E(h[1]) | ({h[2]} if h[2] is not None else set()) for h in s[3]], set())
     return set()
 
 
